@@ -127,10 +127,11 @@ class Batch:
                 raise core.MachineryError("history gives cherrypick=%s, the case wants %s" % (cherry, c["cp"]))
             mg.do_merge()
 
-    def observe(self, idx, want):
-        """[rec, file, regions, helpers, others] for case idx; want = the oracle's text or None (bookkeeping scope)."""
+    def observe(self, idx, want, conflicts):
+        """[rec, file, regions, helpers, others] for case idx; want = the oracle's text or None (bookkeeping scope);
+        conflicts = list(WorkingTree.conflicts()) read for this round of observations."""
         c, n = self.cases[idx], self.names[idx]
-        recs = [k for k in self.this.conflicts() if k.path == n or k.path.startswith(n + ".")]
+        recs = [k for k in conflicts if k.path == n or k.path.startswith(n + ".")]
         p = os.path.join(self.tp, n)
         if os.path.isfile(p):
             with open(p, "rb") as f:
@@ -167,18 +168,20 @@ def _replay(sub, batches):
         bt.merge()
         full = cases[0]["scope"] == "full"
         orc = [oracle(c) if full else (None, None) for c in cases]
-        first = [bt.observe(k, orc[k][1]) for k in range(len(cases))]
+        recorded = list(bt.this.conflicts())
+        first = [bt.observe(k, orc[k][1], recorded) for k in range(len(cases))]
         groups = {}
         for k, c in enumerate(cases):
             if first[k][0]["rec"]:
                 groups.setdefault(c["act"], []).append(k)
         for act, idxs in sorted(groups.items()):
             C.resolve(bt.this, paths=[bt.names[k] for k in idxs], action=act)
+        recorded = list(bt.this.conflicts())
         for k, c in enumerate(cases):
             tr, dbg = [first[k][0]], [first[k][1]]
             if first[k][0]["rec"]:
                 # after resolve the reference for "oracle" stays the merge output (resolve --done keeps the file)
-                ob2, d2 = bt.observe(k, orc[k][1])
+                ob2, d2 = bt.observe(k, orc[k][1], recorded)
                 tr.append(ob2)
                 dbg.append(d2)
             rows.append({"c": c, "hc": bool(orc[k][0]) if full else False, "tr": tr})
